@@ -21,6 +21,12 @@
     X6  (repaired) a straggler precommit at height 1, where there is no last commit, is ignored;
         as found it reached AddVote on a nil VoteSet and panicked the consensus routine —
         counter-theorem with witness, replayed on the code.
+    X10 over every RUN of the (repaired) state machine - any messages from any peers, the node's
+        own queued messages, any timeouts, from a fresh node - an assembled `ProposalBlock` has its
+        complete part set and `finalizeCommit` never hands `BlockStore.SaveBlock` an incomplete one
+        (Lemmas/Assembled.lean: an inductive invariant through every handler); as found a late
+        proposal emptied the part set of an assembled block and the commit panicked -
+        counter-theorems (general and on a concrete 4-validator history), witness replayed on the code.
   The model's handlers are total functions; that the real handlers return (no panic) on every
   input of the hostile catalogue, in every step, and that the node still commits afterwards
   ("not wedged") is decided per run by the c08 engine, with zero divergences from the model.
